@@ -4,6 +4,9 @@ package props
 // mutated in place between two Marshal calls into a re-used buffer.
 
 import (
+	"reflect"
+	"unsafe"
+
 	"vharness/cat"
 	"vharness/vrt"
 )
@@ -32,4 +35,39 @@ func H06m_MutateBetween() {
 	vrt.Assert("fresh marshal ok", err == nil)
 	vrt.Assert("re-marshalling a mutated value == encoding of the new value", vrt.BytesEq(second, want))
 	vrt.Assert("and equals the documented encoding", vrt.BytesEq(second, x.Ref(nil, refOf(cfgDef, 0))))
+}
+
+// H06m_MapMutate: a map with many entries marshalled, one value replaced in
+// place (its encoded size changes), marshalled again: value-only dependence.
+func H06m_MapMutate() {
+	p := newPlenc(cfgDef)
+	type row struct {
+		M map[string]int `plenc:"1"`
+		Z int            `plenc:"2"`
+	}
+	in := row{M: map[string]int{}, Z: 3}
+	keys := []string{"a", "b", "c", "d", "e", "f", "g", "h", "i"}
+	for _, k := range keys {
+		in.M[k] = 1
+	}
+	buf := make([]byte, 0, 256)
+	first, err := p.Marshal(buf, &in)
+	vrt.Assert("first marshal ok", err == nil)
+	nv := vrt.Int("nv")
+	in.M["e"] = nv
+	second, err := p.Marshal(first[:0], &in)
+	vrt.Assert("second marshal ok", err == nil)
+	fresh := newPlenc(cfgDef)
+	var out row
+	vrt.Assert("the re-marshalled bytes decode", fresh.Unmarshal(second, &out) == nil)
+	vrt.Assert("field after the map", out.Z == 3)
+	v, ok := out.M["e"]
+	vrt.Assert("replaced value present", ok && len(out.M) == len(keys))
+	vrt.Assert("replaced value", vrt.Implies(ok, v == nv))
+	c, err := p.CodecForType(reflect.TypeOf(in.M))
+	vrt.Assert("codec ok", err == nil)
+	if err == nil {
+		mp := *(*unsafe.Pointer)(unsafe.Pointer(&in.M))
+		vrt.Assert("Size == len(Append) after the mutation", c.Size(mp, nil) == len(c.Append(nil, mp, nil)))
+	}
 }
